@@ -21,7 +21,8 @@ ID = 'C16'
 BOUNDS = {
     'quick': 'presence of rvint / pack9 / packedpid / pid raw columns: 4 free booleans (all 16 file kinds); N in {0,2} records of free '
              'bit-vectors (pack9: header + 2 records); load in {None, every subset of the loadable names of the file kind (<= 2 names)}; '
-             'colname in {None, explicit}; dtype in {f4,f8}; deprecated load_pos/load_vel in {None,T,F}^2; light-cone and snapshot headers',
+             'colname in {None, explicit}; dtype in {f4,f8}; deprecated load_pos/load_vel in {None,T,F}^2; light-cone and snapshot headers'
+             '; also: all pairs of particle-id outputs and (aux, pid); float32 rounding markers',
     'thorough': 'as quick with all subsets of the six pid-derived names and N=3',
 }
 OUTSIDE = 'the ASDF container and decompression (stubbed); decoding itself (C04, C15); verbose printing'
